@@ -6,5 +6,9 @@ for d in seeded/*/; do
   sid=$(basename $d)
   .venv/bin/python dev/seedrun.py $sid 2>&1 | cut -c1-500
 done
+for d in harmless/*/; do
+  sid=$(basename $d)
+  SEED_DIR=harmless .venv/bin/python dev/seedrun.py $sid 2>&1 | cut -c1-500
+done
 git -C /repo status --short
 echo SEEDALL-DONE
